@@ -22,6 +22,7 @@ RULE = (
     "a crash strictly inside a step (job directory exists, last file not yet published), or in the first step of a new iteration, or a second crash during recovery. "
     "distinct = distinct (configuration, crash points)."
     ' A quarter of the configurations carry pass-through options on the command line (--excludes in both spellings, unrelated options).'
+    ' Interruption styles: kill, KeyboardInterrupt, failing pipeline command, pipeline command killed by a signal (negative return code).'
 )
 ASSUMPTIONS = [
     "nextflow itself is not run: its observable contract (files under --outdir/<name>/, published atomically in an order consistent with the process DAG of the .nf sources) is simulated",
@@ -83,7 +84,7 @@ def n_points(cfg):
     return _n_cache[k]
 
 
-STYLES = ("kill", "interrupt", "fail")
+STYLES = ("kill", "interrupt", "fail", "signal")
 
 
 def exhaustive(tier):
@@ -100,6 +101,9 @@ def exhaustive(tier):
         if tier != "quick" or ci in (0, 1, 2):
             for c in range(n):
                 yield {"cfg": cfg, "crashes": [c], "style": "fail"}
+        if tier != "quick" or ci in (0, 2, 3):
+            for c in range(n):
+                yield {"cfg": cfg, "crashes": [c], "style": "signal"}
     if tier == "thorough":
         # every ordered pair for three small configurations
         for cfg in CONFIGS_QUICK[:3]:
@@ -136,7 +140,7 @@ def _case(draw):
     crashes = [c1]
     if draw(st.booleans()):
         crashes.append(c1 + 1 + draw(st.integers(0, 120)))
-    return {"cfg": cfg, "crashes": crashes, "frac": True, "style": draw(st.sampled_from(["kill", "kill", "interrupt", "interrupt", "fail"]))}
+    return {"cfg": cfg, "crashes": crashes, "frac": True, "style": draw(st.sampled_from(["kill", "kill", "interrupt", "interrupt", "fail", "signal"]))}
 
 
 def strategy(tier):
@@ -317,7 +321,7 @@ def check_case(case):
     style = case.get("style", "kill")
     res = run_scenario(cfg, crashes, style=style)
     sites = res["crash_sites"]
-    desc = "config %s, %s at %s" % (json.dumps(case["cfg"], sort_keys=True), {"kill": "process killed", "interrupt": "KeyboardInterrupt", "fail": "pipeline command failed / KeyboardInterrupt"}[style], ["%d:%s" % s for s in sites] or crashes)
+    desc = "config %s, %s at %s" % (json.dumps(case["cfg"], sort_keys=True), {"kill": "process killed", "interrupt": "KeyboardInterrupt", "fail": "pipeline command failed / KeyboardInterrupt", "signal": "pipeline command killed by a signal / KeyboardInterrupt"}[style], ["%d:%s" % s for s in sites] or crashes)
     if res["violations"]:
         v = res["violations"][0]
         raise Violation(v[0], "%s (%s)" % (v[1], desc))
